@@ -72,7 +72,7 @@ RoundTrips(v) == \A m \in Members(v.cls) : Count(v, m) > 0 => m \in Emitted(v) /
 (* Validation variants (C13)                                               *)
 (***************************************************************************)
 Checked == {"dateTime", "boolean", "integer", "nonNegativeInteger", "positiveInteger", "unsignedShort", "duration"}
-WrongOf(t) == CASE t = "dateTime" -> {"text", "badfields"}
+WrongOf(t) == CASE t = "dateTime" -> {"text", "badfields", "trailing", "dateonly"}
                 [] t = "boolean" -> {"text"}
                 [] t \in {"integer"} -> {"text", "fraction"}
                 [] t = "nonNegativeInteger" -> {"text", "negative"}
